@@ -44,7 +44,46 @@ func (f *Frame) execCall(in *ssa.Call, st *State) Val {
 	return f.doCall(in, in.Common(), st, in.Type(), in.Pos())
 }
 
+// doCall: the call itself, then copy-out for slices that view a snapshot of an array stored inside a struct or local
+// (`scc.TraceID[:]`): what the callee left in the snapshot is stored back into the field, so writes through the slice are seen.
 func (f *Frame) doCall(instr ssa.Instruction, cc *ssa.CallCommon, st *State, rt types.Type, pos token.Pos) Val {
+	r := f.doCallInner(instr, cc, st, rt, pos)
+	if st.dead || len(f.sliceSnap) == 0 {
+		return r
+	}
+	// callees known not to write their slice arguments need no copy-out (it would count as a write of the viewed variable)
+	if callee := cc.StaticCallee(); callee != nil {
+		full := callee.String()
+		if o := callee.Origin(); o != nil {
+			full = o.String()
+		}
+		if _, isModel := libModels[full]; isModel && full != "encoding/hex.Decode" {
+			return r
+		}
+		if c := f.e.P.ContractFor(callee); c != nil && c.Pure {
+			return r
+		}
+	}
+	if _, isBuiltin := cc.Value.(*ssa.Builtin); isBuiltin && cc.Value.Name() != "copy" {
+		return r
+	}
+	for _, a := range cc.Args {
+		sb, ok := f.sliceSnap[a]
+		if !ok {
+			continue
+		}
+		f.e.store(st, sb.loc, fmt.Sprintf("(select %s %s)", f.e.getHeapA(st, sb.sort), sb.arr))
+	}
+	return r
+}
+
+type sliceSnapshot struct {
+	arr  string
+	sort string
+	loc  *Loc
+}
+
+func (f *Frame) doCallInner(instr ssa.Instruction, cc *ssa.CallCommon, st *State, rt types.Type, pos token.Pos) Val {
 	e := f.e
 	var args []Val
 	for _, a := range cc.Args {
